@@ -75,6 +75,12 @@ def wf (rules : List RuleSpec) : Bool :=
     (s.kind != 0 || (s.statics.isEmpty && s.whens.isEmpty && s.discs.isEmpty)) &&
     s.discs.all (fun d => (specOf rules d.2).kind == 0)
 
+def allReqs (s : RuleSpec) : List Req := s.statics ++ s.whens.flatMap (fun w => w.2)
+
+/-- request ids are distinct within a rule and kinds are the three the engine knows (`Program.Det`) -/
+def det (rules : List RuleSpec) : Bool :=
+  rules.all fun s => decide (((allReqs s).map (fun q => q.id)).Nodup) && (allReqs s).all (fun q => q.kind ≤ 2)
+
 def program (rules : List RuleSpec) : Program where
   sig env k := sigOf (specOf rules k) env
   valid env k v := validOf (specOf rules k) env v
